@@ -47,7 +47,16 @@ structure Block where
   hdr  : List Nat      -- the 16 block-header bytes as written
   plen : Nat           -- CompressedSize
   ents : List Op
-  deriving DecidableEq, Repr, Inhabited
+  deriving Repr, Inhabited
+
+def Block.decEqFields (a b : Block) : Decidable (a = b) :=
+  if h : a.hdr = b.hdr ∧ a.plen = b.plen ∧ a.ents = b.ents then
+    isTrue (by cases a; cases b; simp_all)
+  else isFalse (by intro e; subst e; simp at h)
+
+/-- field-wise equality; the compiled driver first tries pointer equality (core `withPtrEqDecEq`,
+    logically the identity wrapper) because files hold thousands of cells of the same block -/
+instance : DecidableEq Block := fun a b => withPtrEqDecEq a b (fun _ => Block.decEqFields a b)
 
 def le32 (l : List Nat) : Nat :=
   l.getD 0 0 + 256 * l.getD 1 0 + 65536 * l.getD 2 0 + 16777216 * l.getD 3 0
